@@ -96,3 +96,76 @@ prop('C01', opts={'abstract_fp': True},
      bounds={'quick': 'channels 1..3, capacity 0..2 frames, every window (case split), 0..C-1 extra samples (unaligned lengths, interleaved forms), caller slices of every length 0..C*K+2 / per-channel slices nil or 0..K+1 long; all sample values and witness positions symbolic; 12 element-type pairs',
              'thorough': 'channels 1..3, capacity 0..3 frames; all 169 element-type pairs'},
      outside=['more channels / frames than the bound', 'values not representable in both element types (excluded by the property)'])
+
+FAMS = {'Float': FLOATS, 'Signed': INTS_S, 'Unsigned': INTS_U}
+CONVS = ['%sAs%s' % (a, b) for a in FAMS for b in FAMS]
+
+
+def conv_pairs(fn, quick):
+    sf, df = fn.split('As')
+    if not quick:
+        return [(a, b) for a in FAMS[sf] for b in FAMS[df]]
+    q = {'Float': ['float32', 'float64'], 'Signed': ['int8', 'int64'], 'Unsigned': ['uint16', 'uint64']}
+    prs = [(a, b) for a in q[sf] for b in q[df]]
+    return prs[:2] if quick == 1 else prs
+
+
+prop('C03',
+     harnesses=[
+         {'name': 'C03_Append', 'types': {'quick': QUICK_T, 'thorough': ALL},
+          'params': {'quick': {'MaxC': 3, 'MaxK': 3, 'MaxKS': 2}, 'thorough': {'MaxC': 4, 'MaxK': 4, 'MaxKS': 4}}, 'covers': ['in-place', 'grown']},
+         {'name': 'C03_SelfAppend', 'types': {'quick': QUICK_T, 'thorough': ALL},
+          'params': {'quick': {'MaxC': 3, 'MaxK': 3}, 'thorough': {'MaxC': 4, 'MaxK': 4}}, 'covers': ['self-nonempty']},
+         {'name': 'C03_Twice', 'types': {'quick': ['int8', 'float64'], 'thorough': ALL},
+          'params': {'quick': {'MaxC': 2, 'MaxK': 2, 'MaxKS': 2}, 'thorough': {'MaxC': 3, 'MaxK': 3, 'MaxKS': 3}}},
+     ],
+     bounds={'quick': 'destination: every window of a buffer with 1..3 channels and 0..3 frames; source: every window of a second buffer with 0..2 frames (other storage) or the destination itself; growth capacity = go1.23 growslice model; sample values and witness positions symbolic',
+             'thorough': 'destination 1..4 channels, 0..4 frames; source 0..4 frames; all 13 element types'},
+     outside=['sources overlapping the destination spare capacity (excluded by the property, other than self-append)', 'capacities chosen by Go releases other than the modelled growslice', 'larger shapes'])
+
+prop('C05', opts={'abstract_fp': True},
+     harnesses=[{'name': 'C05_' + fn, 'types': {'quick': conv_pairs(fn, 1), 'thorough': conv_pairs(fn, 0)},
+                 'params': {'quick': {'MaxC': 2, 'MaxK': 2, 'Unaligned': 1}, 'thorough': {'MaxC': 3, 'MaxK': 2, 'Unaligned': 1}},
+                 'covers': ['converted', 'untouched']} for fn in CONVS] +
+     [{'name': 'C05_FloatAsFloatValue', 'types': [(a, b) for a in FLOATS for b in FLOATS], 'opts': {'abstract_fp': False}}],
+     bounds={'quick': 'source and destination: every window of buffers with 1..2 channels and 0..2 frames, plus 0..C-1 extra samples on either side (unaligned lengths); sample values and witness positions symbolic; 2 type pairs per conversion; FloatAsFloat value preservation for all float32/float64 bit patterns (4 pairs)',
+             'thorough': '1..3 channels, 0..2 frames; all 169 instantiations'},
+     outside=['larger shapes', 'value-level behaviour of the eight fixed-point conversions (C06-C09)'])
+
+NAMED = ['NamedInt8', 'NamedInt16', 'NamedInt32', 'NamedInt64', 'NamedInt', 'NamedUint8', 'NamedUint16', 'NamedUint32',
+         'NamedUint64', 'NamedUint', 'NamedUintptr', 'NamedFloat32', 'NamedFloat64']
+prop('C13', opts={'lazy_make': True},
+     harnesses=[{'name': 'C13_Alloc', 'types': {'quick': QUICK_T + ['NamedInt8', 'NamedUint16', 'NamedFloat32', 'NamedInt'], 'thorough': ALL + NAMED},
+                 'params': {'quick': {'MaxAllocC': 8, 'MaxAllocK': 4096}, 'thorough': {'MaxAllocC': 64, 'MaxAllocK': 65536}}, 'covers': ['nonempty']},
+                {'name': 'C13_Length', 'types': {'quick': ['int8', 'float64'], 'thorough': QUICK_T},
+                 'params': {'quick': {'MaxLemmaC': 3, 'MaxLemmaK': 8}, 'thorough': {'MaxLemmaC': 4, 'MaxLemmaK': 16}}}],
+     bounds={'quick': 'channels 1..8 (case split), 0 <= L <= K <= 4096 symbolic, witness positions symbolic over the whole capacity; 5 built-in and 4 named element types; per-channel Length() (floating-point ceil) for C<=3, K<=8',
+             'thorough': 'channels 1..64, 0 <= L <= K <= 65536 symbolic; all 13 built-in and 13 named element types; Length() for C<=4, K<=16'},
+     outside=['Length() beyond the small bound (its floating-point division is checked exactly only there)', 'C = 0 (C20)', 'K beyond the bound'])
+
+prop('C14',
+     harnesses=[{'name': 'C14_Channel', 'types': {'quick': QUICK_T, 'thorough': ALL},
+                 'params': {'quick': {'MaxC': 4, 'MaxK': 3}, 'thorough': {'MaxC': 8, 'MaxK': 3}}, 'covers': ['nonempty']}],
+     bounds={'quick': 'parents: every window of a buffer with 1..4 channels and 0..3 frames; every channel; index and witness position symbolic', 'thorough': '1..8 channels; all 13 element types'},
+     outside=['larger shapes'])
+
+prop('C15', opts={'abstract_fp': True},
+     harnesses=[{'name': 'C15_' + fn, 'types': {'quick': conv_pairs(fn, 1)[:1], 'thorough': conv_pairs(fn, 2)},
+                 'params': {'quick': {'MaxC15': 3, 'MaxK15': 1}, 'thorough': {'MaxC15': 4, 'MaxK15': 2}}} for fn in CONVS] +
+     [{'name': 'C15_Append', 'types': {'quick': ['int8', 'float64'], 'thorough': QUICK_T}, 'params': {'quick': {'MaxC15': 3, 'MaxK15': 1}, 'thorough': {'MaxC15': 4, 'MaxK15': 2}}},
+      {'name': 'C15_ReadStriped', 'types': {'quick': PAIRS_Q[:3], 'thorough': PAIRS_Q}, 'params': {'quick': {'MaxC15': 3, 'MaxK15': 1}, 'thorough': {'MaxC15': 4, 'MaxK15': 2}}},
+      {'name': 'C15_WriteStriped', 'types': {'quick': PAIRS_Q[:3], 'thorough': PAIRS_Q}, 'params': {'quick': {'MaxC15': 3, 'MaxK15': 1}, 'thorough': {'MaxC15': 4, 'MaxK15': 2}}},
+      {'name': 'C15_Put', 'types': {'quick': ['int8', 'float64'], 'thorough': QUICK_T}, 'opts': {'pool_mode': 'all'}}],
+     bounds={'quick': 'every ordered pair of different channel counts 1..3 (slice counts 0..4), 1 frame, recognisable (symbolic) contents, witness positions symbolic; one type pair per conversion',
+             'thorough': 'channel counts 1..4 (slice counts 0..5), 1..2 frames; 4 type pairs per conversion'},
+     outside=['larger shapes'])
+
+prop('C20', opts={'abstract_fp': True},
+     harnesses=[{'name': 'C20_ZeroChannels', 'types': {'quick': ['int8', 'uint16', 'float64'], 'thorough': ALL}},
+                {'name': 'C20_ChannelLength', 'types': [()], 'opts': {'abstract_fp': False}},
+                {'name': 'C20_ZeroCapacity', 'types': {'quick': ['int8', 'uint16', 'float64'], 'thorough': ALL}},
+                {'name': 'C20_Pool', 'types': {'quick': ['int8', 'float64'], 'thorough': ALL}},
+                {'name': 'C20_ZeroLengthIO', 'types': {'quick': ['int8', 'uint16', 'float64'], 'thorough': ALL}}] +
+     [{'name': 'C20_' + fn, 'types': {'quick': conv_pairs(fn, 1)[:1], 'thorough': conv_pairs(fn, 2)}} for fn in CONVS],
+     bounds='zero channels with every requested length/capacity 0..3; zero capacity with 1..3 channels; zero-length windows at every frame of a 2-frame buffer; ChannelLength(n,0) for every int n (symbolic); all nine conversions in the four degenerate configurations',
+     outside=['Alloc with Length > Capacity (make panics; outside Alloc contract)'])
